@@ -87,33 +87,59 @@ func traverseArrayOperator(d *dataTreeNavigator, context Context, expressionNode
 		return sliceArrayOperator(d, context, expressionNode.RHS.RHS)
 	}
 
-	lhs, err := d.GetMatchingNodes(context, expressionNode.LHS)
-	if err != nil {
-		return Context{}, err
-	}
-
-	// rhs is a collect expression that will yield indices to retrieve of the arrays
-
-	rhs, err := d.GetMatchingNodes(context.ReadOnlyClone(), expressionNode.RHS)
-
-	if err != nil {
-		return Context{}, err
-	}
 	prefs := traversePreferences{}
 
 	if expressionNode.Operation.Preferences != nil {
 		prefs = expressionNode.Operation.Preferences.(traversePreferences)
 	}
-	var indicesToTraverse = rhs.MatchingNodes.Front().Value.(*CandidateNode).Content
 
-	log.Debugf("indicesToTraverse %v", len(indicesToTraverse))
-
-	//now we traverse the result of the lhs against the indices we found
-	result, err := traverseNodesWithArrayIndices(lhs, indicesToTraverse, prefs)
+	lhs, err := d.GetMatchingNodes(context, expressionNode.LHS)
 	if err != nil {
 		return Context{}, err
 	}
-	return context.ChildContext(result.MatchingNodes), nil
+
+	// rhs is a collect expression that will yield indices to retrieve of the arrays.
+	// Every node is indexed with the indices worked out for the context node it was reached from:
+	// .[] | .items[.pos] uses each element's own .pos, and with several documents evaluated
+	// together .[0] is the first element of each (the collected index list used to be shared)
+	indicesByOwner := make(map[*CandidateNode][]*CandidateNode)
+	indicesFor := func(owner *CandidateNode) ([]*CandidateNode, error) {
+		if indices, known := indicesByOwner[owner]; known {
+			return indices, nil
+		}
+		rhsContext := context
+		if owner != nil {
+			rhsContext = context.SingleChildContext(owner)
+		}
+		rhs, err := d.GetMatchingNodes(rhsContext.ReadOnlyClone(), expressionNode.RHS)
+		if err != nil {
+			return nil, err
+		}
+		var indices []*CandidateNode
+		if rhs.MatchingNodes.Front() != nil {
+			indices = rhs.MatchingNodes.Front().Value.(*CandidateNode).Content
+		}
+		indicesByOwner[owner] = indices
+		return indices, nil
+	}
+
+	var results = list.New()
+	for el := lhs.MatchingNodes.Front(); el != nil; el = el.Next() {
+		candidate := el.Value.(*CandidateNode)
+		indicesToTraverse, err := indicesFor(contextNodeHolding(context, candidate))
+		if err != nil {
+			return Context{}, err
+		}
+		log.Debugf("indicesToTraverse %v", len(indicesToTraverse))
+
+		//now we traverse the result of the lhs against the indices we found
+		newNodes, err := traverseArrayIndices(lhs, candidate, indicesToTraverse, prefs)
+		if err != nil {
+			return Context{}, err
+		}
+		results.PushBackList(newNodes)
+	}
+	return context.ChildContext(results), nil
 }
 
 func traverseNodesWithArrayIndices(context Context, indicesToTraverse []*CandidateNode, prefs traversePreferences) (Context, error) {
